@@ -27,7 +27,7 @@ CLAIMED = {
             "Trusted: refwire/refcol (written from the protocol description, independent of proto/compress), city/lz4/zstd libraries for frames. Client-info fields the caller does not control (client name, version) are taken from the hello the same client sent; the patch number is not compared."),
     "C03": ("exploration", "DESIGN.md §4 C03",
             "bounded-exhaustive enumeration of server packet scripts; each case executes the real client against the scripted reference peer and is compared with a reference interpreter of the specified receive loop",
-            "All scripts of length <= 3 (thorough 4) over a 19-symbol server-packet alphabet (incl. zero-valued Progress / Profile packets and a zero-row data block) x {plain, LZ4} x {typed, Auto, no binding}; all scripts of length <= 2 (3) x 16 revisions around every packet-affecting threshold x 9 callback sets; all scripts of length <= 2 x each callback failing. Callback trace (kind, payload, bound column values at callback time), return value and exception chain (errors.As / errors.Is / IsErr for every nested code) must equal the interpreter's.",
+            "All scripts of length <= 3 (thorough 4) over a 20-symbol server-packet alphabet (incl. an exception with a chain of 40 causes, zero-valued Progress / Profile packets and a zero-row data block) x {plain, LZ4} x {typed, Auto, no binding}; all scripts of length <= 2 (3) x 16 revisions around every packet-affecting threshold x 9 callback sets; all scripts of length <= 2 x each callback failing. Callback trace (kind, payload, bound column values at callback time), return value and exception chain (errors.As / errors.Is / IsErr for every nested code) must equal the interpreter's.",
             "Trusted: refwire/refcol as generators of well-formed server streams. The behaviour without OnResult (fails when a block follows one with rows) is taken from the documentation of Query.OnResult."),
     "C08": ("exploration", "DESIGN.md §4 C08",
             "bounded-exhaustive enumeration of transport segmentations of enumerated server streams on the simulated connection (reads stop at chosen cut offsets; idle gaps drive the fake clock past the read deadline)",
@@ -51,7 +51,7 @@ CLAIMED = {
             "Trusted: go-faster/city, pierrec/lz4, klauspost/zstd (shared by library and reference frame codec)."),
     "C06": ("fault_enumeration", "DESIGN.md §4 C06",
             "exhaustive single-point mutation of valid encodings (every byte x 10 values, every offset x 25 boundary / huge values incl. the neighbourhoods of the signed limits, as 8-byte field and as varint, every splice offset) decoded in memory-limited subprocesses with crash attribution and a non-termination watchdog",
-            "Corpus: one block per registry composition (LowCardinality compositions also as a server may write them, with 16- and 64-bit keys; further block shapes: several columns, zero rows, header type strings as a server spells them) and the protocol messages. Each mutant is decoded through the typed target and through Auto; the worker runs with a 3 GiB address-space limit and the block row cap lowered to 65536 by an overlay (so that by-design allocations stay small and only length-field-driven ones can exhaust memory). Oracle: returns within 30 s, no panic, process alive, and on success Rows() equals the block's row count and Row(i) works for every i. A dying worker is attributed to the input it was decoding, provided a fresh process given that input alone dies as well, and restarted after it.",
+            "Corpus: one block per registry composition (LowCardinality compositions also as a server may write them, with 16- and 64-bit keys; further block shapes: several columns, zero rows, header type strings as a server spells them and with hostile or huge parameters) and the protocol messages. Each mutant is decoded through the typed target and through Auto; the worker runs with a 3 GiB address-space limit and the block row cap lowered to 65536 by an overlay (so that by-design allocations stay small and only length-field-driven ones can exhaust memory). Oracle: returns within 30 s, no panic, process alive, and on success Rows() equals the block's row count and Row(i) works for every i. A dying worker is attributed to the input it was decoding, provided a fresh process given that input alone dies as well, and restarted after it.",
             "Trusted: the overlay that rewrites only the constant maxRowsInBLock. Quick covers every composition of depth <= 1 and every 11th of depth 2; thorough all."),
     "C07": ("fault_enumeration", "DESIGN.md §4 C07",
             "exhaustive enumeration of every proper prefix of every corpus encoding (plain, and inside None / LZ4 / ZSTD frames as one and two frames), decoded through typed and inferred targets",
